@@ -255,6 +255,23 @@ fn run_trees<P: ExecProp + ?Sized>(p: &P, sut: &dyn Sut, run: &mut Run, stats: &
     for (i, m) in candidates.into_iter().take(6) {
         let choices = sampled.trees[i].current();
         let confirmed = eval_single(p, sut, &choices);
+        // a module that the fake rejects but the real wgpu 24 accepts is a gap in the recording fake,
+        // not a defect of the generator: infrastructure error, never a violation
+        if let Some(mi) = &confirmed {
+            if p.kind() == Kind::Fake && mi.starts_with("the generated ") && mi.contains("does not compile") {
+                let mut st = Stats::new();
+                if let Some(b) = p.build(&choices, &mut st) {
+                    if let Outcome::Ok(text) = sut.generate(&b.wgsl, b.include_path.as_deref(), &b.opts) {
+                        let ws = Workspace::new(&format!("{}shim", p.id()), Kind::Real, 1);
+                        let r = ws.run(&[ProbeCase { module_src: text, probe_src: String::new(), files: b.files.clone() }]);
+                        if matches!(r[0], CaseResult::Ok(_)) {
+                            eprintln!("SHIM-GAP property={}: the generated module compiles against the real wgpu 24.0.5 but not against /verif/shim/wgpu:\n{}", p.id(), mi);
+                            std::process::exit(2);
+                        }
+                    }
+                }
+            }
+        }
         let Some(m_iso) = confirmed else {
             unconfirmed += 1;
             eprintln!("candidate violation not confirmed in isolation (dropped): {}", m.lines().next().unwrap_or(""));
